@@ -362,7 +362,7 @@ class DeviceSession:
             self.env.log("rx_noise_handshake", sess=self.idx, n=len(body))
             r = noise_ref.Responder(dev.noise_key)
             try:
-                answer = r.accept_client_handshake(body)
+                answer = r.accept_client_handshake(body, getattr(dev, 'noise_hs_payload', b''))
             except Exception as e:  # noqa: BLE001 – wrong key: answer with an error frame, never raise into write()
                 self.noise_stage = -1
                 self.env.log("device_handshake_reject", sess=self.idx, text=type(e).__name__)
